@@ -1589,7 +1589,6 @@ class WBEMListener:
                 self.logger.info(
                     "%s indications discarded from indication queue",
                     clr_count)
-            self._ind_queue = None
 
         # Tolerate that callback thread has already stopped, just in case.
         if self._callback_thread:
@@ -1598,6 +1597,10 @@ class WBEMListener:
             self._callback_thread.join()
             self.logger.info("Stopped callback thread")
             self._callback_thread = None
+
+        # The callback thread uses the indication queue until it has ended,
+        # so the queue is released only after that thread has been joined.
+        self._ind_queue = None
 
     def _stop_listener_threads(self):
         """
